@@ -146,25 +146,25 @@ def check(run):
         agree(run, p, kind, ver, det)
     run.floor('C06-MUSTFLAG', len(km), 10)
     run.floor('C06-AGREE', sum(1 for o in run.obs if o.rule == 'C06-AGREE'), 19)
-    outfile(run, p)
-    inplace(run, p)
+    run.attempt(outfile, run, p)
+    run.attempt(inplace, run, p)
     from .c02 import fuzz_shape
     fuzz_shape(run, p, 'C06-AGREE')     # the record-level fuzzy comparators use the same fuzz_down / fuzz_up as the aggregate ones
     run.rules['C06-AGREE'] += '; the record-level fuzzy comparators df_fuzzy_gt / df_fuzzy_lt have the shape of the aggregate ones (a op b or a op fuzz_down/up(b, epsilon))'
-    vername(run, p, km)
-    sibling_ctor(run, p)
+    run.attempt(vername, run, p, km)
+    run.attempt(sibling_ctor, run, p)
     from .c09 import sameprep
-    sameprep(run, p, 'C06-SAMEPREP')
+    run.attempt(sameprep, run, p, 'C06-SAMEPREP')
     from .c17 import rownum
-    rownum(run, p)
+    run.attempt(rownum, run, p)
     run.rules['C06-ROWNUM'] = run.rules.pop('C17-ROWNUM')
     for o in run.obs:
         if o.rule == 'C17-ROWNUM':
             o.rule = 'C06-ROWNUM'
     run.floors = [(('C06-ROWNUM' if r == 'C17-ROWNUM' else r), c, m) for r, c, m in run.floors]
     from .. import ief, triage
-    ief.run_ief(run, 'C06', [p.fn('detect_df')], triage=triage.IEF)
-    run.floor('C06-IEF', run.units['ief_functions_checked'], 80)
+    run.attempt(ief.run_ief, run, 'C06', [p.fn('detect_df')], triage=triage.IEF)
+    run.floor('C06-IEF', run.units.get('ief_functions_checked', 0), 80)
 
 
 def agree(run, p, kind, ver, det):
